@@ -115,7 +115,30 @@ fn scenario(ctx: &Ctx, idx: u64) -> Report {
             } else {
                 // a response whose transaction id cannot derive from any request of this node
                 poison_senders.insert(sender);
-                let tid = if rng.gen_bool(0.5) {
+                // transaction ids the node itself used most recently (searches, refresh, bootstrap)
+                let live: Vec<Vec<u8>> = net
+                    .log()
+                    .iter()
+                    .rev()
+                    .filter(|w| w.ev == Ev::Send && w.src == addr)
+                    .take(40)
+                    .filter_map(|w| Krpc::parse(&w.data).ok())
+                    .filter(|k| k.is_query() && k.t.len() == 8)
+                    .map(|k| k.t)
+                    .collect();
+                let tid = if !live.is_empty() && rng.gen_bool(0.4) {
+                    // a live id made too long or too short: still "wrong length", must be ignored
+                    let mut t = live.choose(&mut rng).unwrap().clone();
+                    match rng.gen_range(0..3) {
+                        0 => t.push(rng.gen()),
+                        1 => t.extend_from_slice(&[0u8; 8]),
+                        _ => {
+                            t.pop();
+                        }
+                    }
+                    report.count("responses_with_live_id_of_wrong_length");
+                    t
+                } else if rng.gen_bool(0.5) {
                     let len = loop {
                         let l = rng.gen_range(0..=32);
                         if l != 8 {
@@ -256,8 +279,8 @@ pub fn check(tier: Tier) -> Check {
                scripted nodes whose answers additionally name ghosts, the node's own id at a foreign address, the \
                router addresses and duplicates) receives 120 (quick) / 300 (thorough) unsolicited datagrams \
                spread over its life (while bootstrapping, idle, while searching), each from a fresh address: \
-               queries of all four kinds, and responses whose transaction id has a length other than 8 or an \
-               activity prefix >= 2^32, naming 0..50 fresh nodes and carrying fresh peer values. Every 4th \
+               queries of all four kinds, and responses whose transaction id has a length other than 8 (random, \
+               or one of the node's own live ids lengthened / shortened) or an activity prefix >= 2^32, naming 0..50 fresh nodes and carrying fresh peer values. Every 4th \
                step load_contacts() and the hook registry dump are read: no unsolicited sender, no name from \
                an impossible response, no router address, not the own id; every address reported good must have \
                had a datagram delivered to the node; search streams must not yield values of impossible \
@@ -272,6 +295,7 @@ pub fn check(tier: Tier) -> Check {
             ("unsolicited_queries", tier.pick(8_000, 400_000)),
             ("responses_with_wrong_tid_length", tier.pick(3_000, 150_000)),
             ("responses_with_never_used_prefix", tier.pick(3_000, 150_000)),
+            ("responses_with_live_id_of_wrong_length", tier.pick(2_000, 100_000)),
             ("contact_samples", tier.pick(4_000, 200_000)),
             ("searches_during_injection", tier.pick(200, 4_000)),
         ],
